@@ -424,7 +424,7 @@ pub struct Mutant {
 }
 
 fn cell(ctx: &str, op: &str, a: (Ty, usize), b: (Ty, usize)) -> Cell {
-    Cell { ctx: ctx.to_string(), op: op.to_string(), a: a.0, ka: a.1, b: b.0, kb: b.1 }
+    Cell { ctx: ctx.to_string(), op: op.to_string(), a: a.0, ka: a.1, b: b.0, kb: b.1, x: "direct".to_string(), y: "top".to_string() }
 }
 
 struct Mutator<'a> {
